@@ -96,6 +96,9 @@ ADVERSARIAL = [
     "M117 hello", "M117", "M204 P500 T700", "M204 S", "M204 P S T", "M204 p1", "M205 X8",
     "M73 P10 R5", "G4 P100", "M106 S255", "M107", "M400", "T0", "T1", "M84 X Y",
     "M82", "M83", "G5 X1 Y1", "G29", "M104 S200 T0", "N5 G1 X15 Y15*33", "G1 X15 Y15 *12",
+    # a valued word followed by a valueless repeat of the letter: the value stays (C19)
+    "G1 X12 Y7 X", "G1 Z Z2 Z", "G1 X15 Y15 E1 E", "G1 X5 Y5 F3000 F", "G92 E0 E", "G1 X0 Y15", "G1 X15 Y0",
+    "G1 X0", "G1 Y0", "G1 Z0", "G1 E0", "G0 X0 Y0 Z0",
 ]
 
 OFFSET_CMDS = ["G92 X0", "G92 X10 Y10", "G92 Z1", "G92 X-5 E2", "M206 X5", "M206 X-2 Y3 Z0.5",
@@ -573,8 +576,15 @@ def make_plugin(settings):
 def apply_settings(unit, st, fire=True):
     from octoprint.settings import settings as octoprint_settings
     s = unit._settings    # pylint: disable=protected-access
-    s.set_boolean(["clearRegionsAfterPrintFinishes"], st["clear"])
-    s.set_boolean(["mayShrinkRegionsWhilePrinting"], st["shrink"])
+    raw = st.get("raw") or {}
+    if "clear" in raw:
+        s.set(["clearRegionsAfterPrintFinishes"], raw["clear"])
+    else:
+        s.set_boolean(["clearRegionsAfterPrintFinishes"], st["clear"])
+    if "shrink" in raw:
+        s.set(["mayShrinkRegionsWhilePrinting"], raw["shrink"])
+    else:
+        s.set_boolean(["mayShrinkRegionsWhilePrinting"], st["shrink"])
     cfg = st["cfg"]
     s.set(["enteringExcludedRegionGcode"], None if cfg.get("enter") is None else "\n".join(cfg["enter"]))
     s.set(["exitingExcludedRegionGcode"], None if cfg.get("exit") is None else "\n".join(cfg["exit"]))
@@ -768,8 +778,18 @@ def plugin_case(ops, st0):
     return Case("plugin", steps, {"kind": "plugin", "settings": st0, "ops": [list(o) for o in ops]})
 
 
+BOOL_SPELLINGS = [(True, True), (False, False), ("true", True), ("false", False), ("yes", True), ("no", False),
+                  ("1", True), ("0", False), (1, True), (0, False), ("False", False), ("off", False)]
+
+
 def rand_settings(r):
-    return {"clear": r.random() < 0.4, "shrink": r.random() < 0.3, "cfg": {
+    raw = {}
+    if r.random() < 0.3:
+        # the settings store may hold the booleans in any spelling OctoPrint's get_boolean accepts
+        raw = {"clear": r.choice(BOOL_SPELLINGS), "shrink": r.choice(BOOL_SPELLINGS)}
+    return {"clear": raw["clear"][1] if raw else r.random() < 0.4,
+            "shrink": raw["shrink"][1] if raw else r.random() < 0.3,
+            "raw": {k: v[0] for k, v in raw.items()}, "cfg": {
         "g90e": r.random() < 0.3,
         "enter": r.choice([None, ["M117 in"], ["M106 S0", "M117 in"]]),
         "exit": r.choice([None, ["M117 out"]]),
@@ -777,7 +797,8 @@ def rand_settings(r):
     }}
 
 
-PLUGIN_PROGRAM = ["G28", "G1 X5 Y5 Z0.2 F3000", "G1 X15 Y15 E1", "G1 E0 F1800", "M117 hi", "M204 P500",
+PLUGIN_PROGRAM = ["G28", "G1 X5 Y5 Z0.2 F3000", "G1 X15 Y15 E1", "G1 E0 F1800", "M117 hi", "M204 P500", "G1 Z2",
+                  "G1 Z0.3", "M204 P0 S0",
                   "G1 X16 Y16", "G1 E1", "G1 X30 Y30 Z0.4", "G1 X31 Y30 E1.5", "G91", "G1 X-15 Y-15", "G90",
                   "G20", "G1 X0.6 Y0.6", "G21", "G10", "G11", "G92 E0", "G1 X12 Y12 E-1", "M73 P5", "G4 P1"]
 
@@ -816,10 +837,19 @@ def gen_two_prints(r):
         ops.append(("api", False, "addExcludeRegion",
                     {"type": "RectangularRegion", "x1": 10.0, "y1": 10.0, "x2": 20.0, "y2": 20.0, "id": "b"}))
     ops.append(("event", "PRINT_STARTED"))
-    for c in ["G28", "G1 X5 Y5 Z0.2 F3000", "G1 X15 Y15 E1", "G1 X16 Y16 E1.5", "M117 hi", "G1 X30 Y30",
-              "G1 X31 Y30 E2"]:
+    tail = r.choice([
+        ["G28", "G1 X5 Y5 Z0.2 F3000", "G1 X15 Y15 E1", "G1 X16 Y16 E1.5", "M117 hi", "G1 X30 Y30", "G1 X31 Y30 E2"],
+        # ends inside an episode, after a Z hop made outside was undone inside
+        ["G28", "G1 X5 Y5 Z0.2 F3000", "G1 Z2", "G1 X15 Y15", "G1 Z0.3", "M117 hi"],
+        ["G28", "G1 X5 Y5 Z2 F3000", "G1 X15 Y15 Z1 E1", "G1 Z0.2", "G1 E0.5"],
+    ])
+    for c in tail:
         ops.append(("gcode", c, impl.split_cmd(c)[0]))
+    if r.random() < 0.3:
+        ops.append(("script", r.choice(["gcode", "code", ""]), r.choice(["afterPrint", "Done", ""])))
     ops.append(("script", "gcode", "afterPrintDone"))
+    if r.random() < 0.3:
+        ops.append(("script", "gcode", "afterPrintDone"))
     return plugin_case(ops, st0)
 
 
@@ -881,8 +911,9 @@ def gen_plugin_case(r):
         elif k < 0.92:
             ops.append(("at", "ExcludeRegion", r.choice(["off", "on", "bogus"]), r.random() < 0.1))
         else:
-            ops.append(("script", r.choice(["gcode", "gcode", "other"]),
-                        r.choice(["afterPrintDone", "afterPrintDone", "beforePrintStarted", "afterPrintCancelled"])))
+            ops.append(("script", r.choice(["gcode", "gcode", "gcode", "other", "code", "g", ""]),
+                        r.choice(["afterPrintDone", "afterPrintDone", "beforePrintStarted", "afterPrintCancelled",
+                                  "afterPrint", "Done", "", "afterPrintDone2"])))
     return plugin_case(ops, st0)
 
 
